@@ -7,7 +7,7 @@ CONSTANTS
   ScoreLo <- Neg3
   ScoreHi = 3
   WeightSeq <- W124
-  AlphaSet <- Alphas4
+  AlphaSet <- A12
   RankMaxN = 60
   Export = TRUE
 CONSTRAINT CorrExport
